@@ -168,11 +168,11 @@ def table_agreement(p, item, tier, seed):
         for nin in (1, 2, 3):
             w = 1 << nin
             po = sc._PatternOperations(nin)
-            for tname in ["NOT", "AND", "NAND", "OR", "NOR", "XOR", "NXOR", "GEQ", "LT", "LEQ", "GT"]:
-                k = 1 if tname == "NOT" else 2
+            for tname, k in [("NOT", 1)] + [(t, 2) for t in ["AND", "NAND", "OR", "NOR", "XOR", "NXOR", "GEQ", "LT", "LEQ", "GT"]] \
+                    + [(t, k) for t in ["AND", "NAND", "OR", "NOR", "XOR", "NXOR"] for k in (3, 4, 5)]:
                 ops = [z3.BitVec(f"pat{i}", w) for i in range(k)]
                 res = po.eval_pattern(list(ops), tname)
-                p.case(("pattern", nin, tname), sample=f"eval_pattern({tname}) on {w}-bit symbolic patterns")
+                p.case(("pattern", nin, tname, k), sample=f"eval_pattern({tname}) on {k} {w}-bit symbolic patterns")
                 dis = []
                 for bit in range(w):
                     rb = z3.Extract(bit, bit, res) == 1
@@ -182,7 +182,7 @@ def table_agreement(p, item, tier, seed):
                 if r == "sat":
                     vals = [m.eval(o, model_completion=True).as_long() for o in ops]
                     p.violation(
-                        f"table:subcircuit.eval_pattern:{tname}",
+                        f"table:subcircuit.eval_pattern:{tname}:arity{k}",
                         f"eval_pattern({vals},{tname}) with {nin} inputs is not the bitwise {tname}",
                         REPLAY_PRELUDE
                         + "from cirbo.minimization import subcircuit as sc\n"
